@@ -164,7 +164,8 @@ def stage_walk(ctx, st):
         if k:
             ctx.known.append(f"{k['id']} deviation={dev} hits={n}: {k['what']}")
         else:
-            hit = [h for h in chosen.get("dev_hits", []) if h["dev"] == dev][0]
+            hits = [h for h in (chosen.get("dev_hits") or []) if h["dev"] == dev]
+            hit = hits[0] if hits else dict(init=None, prefix=[], act=dict(name="(deviation followed; example not retained)"), observed=None)
             p = ctx.new_replay_path(name)
             with open(p, "w") as fh:
                 json.dump(dict(property=ctx.prop, stage=name, module=st["module"], alternative=chosen["_alt"], kind="unlisted-deviation", deviation=dev,
